@@ -33,7 +33,7 @@ def atoms(reversed_too=True):
         for op in STRING_OPS:
             for lit in lits:
                 out.append(f'{var} {op} "{lit}"')
-                if reversed_too and op in ("==", "!="):
+                if reversed_too:
                     out.append(f'"{lit}" {op} {var}')
     for op in CMP_OPS:
         for v in PYV_VALUES:
